@@ -8,3 +8,4 @@ go build -tags verif -o ../build/xh ./cmd/xh
 go build -o ../build/gentables ./cmd/gentables
 go build -o ../build/geneffects ./cmd/geneffects
 go build -o ../build/gencallgraph ./cmd/gencallgraph
+go build -o ../build/gendispatch ./cmd/gendispatch
